@@ -1321,6 +1321,8 @@ func stress(seconds float64, workers int, target int64, mix, chaos, oneq bool, s
 
 // ---------------------------------------------------------------- main
 
+func jsonMarshal(v interface{}) ([]byte, error) { return json.Marshal(v) }
+
 func isHandReplay(path string) bool {
 	var probe []struct {
 		Hand bool `json:"hand"`
@@ -1350,6 +1352,7 @@ func main() {
 	around := flag.Int("around", -1, "exploration depth at the hold points of each shape (0 = the three continuation policies only, -1 = off)")
 	aroundRuns := flag.Int("around-runs", 40, "")
 	flag.IntVar(&maxHung, "max-hung", 3, "stop generating after this many hung runs")
+	hsaco := flag.String("codeobj", "", "code-object stream: path of amd/driver/memcopy.hsaco")
 	handN := flag.Int("hand", 0, "hand-ticked histories over the model's command kinds (noop, kernel, zero-byte copy)")
 	copyN := flag.Int("copy", 0, "copy mode: number of hand-ticked multi-queue copy cases")
 	stressS := flag.Float64("stress", 0, "run the un-instrumented stress loop for this many seconds")
@@ -1362,6 +1365,13 @@ func main() {
 	outPath = *out
 	atexit.Register(dumpOnExit)
 
+	if *hsaco != "" {
+		wd, _ := os.MkdirTemp("", "c12co")
+		os.Chdir(wd) // the simulation writes its akita_sim_*.sqlite3 into the working directory
+		codeObjMain(*hsaco, *out)
+		os.RemoveAll(wd)
+		return
+	}
 	var result interface{}
 	switch {
 	case *stressS > 0 || *stressN > 0:
